@@ -1,13 +1,18 @@
 #!/usr/bin/env python3
-"""usage: import_refactors.py <PROP>   -- copies /tmp/out-r-<PROP>/r*/ (patch.diff, meta.json, equiv.*) into /verif/refactors/<PROP>-r<i>/"""
+"""usage: import_refactors.py <PROP> [offset [max]]   -- (r<i> is stored as r<i+offset>; only r1..r<max> are taken)
+ copies /tmp/out-r-<PROP>/r*/ (patch.diff, meta.json, equiv.*) into /verif/refactors/<PROP>-r<i>/"""
 import json, os, shutil, sys
 P = sys.argv[1]
+OFF = int(sys.argv[2]) if len(sys.argv) > 2 else 0
+MAX = int(sys.argv[3]) if len(sys.argv) > 3 else 99
 src = "/tmp/out-r-%s" % P
 for d in sorted(os.listdir(src)):
     sd = os.path.join(src, d)
     if not os.path.isfile(os.path.join(sd, "patch.diff")):
         continue
-    dst = os.path.join("/verif/refactors", "%s-%s" % (P, d))
+    if not (d.startswith("r") and d[1:].isdigit() and int(d[1:]) <= MAX):
+        continue
+    dst = os.path.join("/verif/refactors", "%s-r%d" % (P, int(d[1:]) + OFF))
     os.makedirs(dst, exist_ok=True)
     shutil.copy(os.path.join(sd, "patch.diff"), dst)
     for f in ("equiv.rs", "equiv.sh"):
